@@ -400,3 +400,61 @@ func alignBufferReuse(r *core.Run, matrices []string) {
 		return fmt.Sprint(stepsBytes(st), ai, bi, sc)
 	})
 }
+
+// alnLenCase: sequences given by their lengths (position-dependent content over ABC).
+type alnLenCase struct {
+	Fn     string `json:"fn"`
+	LenA   int    `json:"len_a"`
+	LenB   int    `json:"len_b"`
+	Matrix string `json:"matrix"`
+}
+
+func lenSeq(n, salt int) []byte {
+	s := make([]byte, n)
+	for i := range s {
+		s[i] = "ABCABBCACA"[(i*3+i/7+salt)%10]
+	}
+	return s
+}
+
+// alignAllLengthPairs: every pair of lengths up to the bound, so that the table size (len(a)+1)*(len(b)+1)
+// and its neighbours len(a)*len(b) pass every threshold a size-dependent shortcut could use (256, 1024,
+// 4096 cells; a stack buffer; a pooled table), plus very unbalanced pairs around 4096 and 65536.
+func alignAllLengthPairs(r *core.Run, matrix string, judge func(c alnCase, res alnResult, changed bool) core.Outcome) {
+	maxLen := core.Pick(r, 72, 140)
+	core.Clause(r, "all-length-pairs", core.Opts{Rule: fmt.Sprintf("every pair of lengths (la, lb) in 0..%d x {Global, Local} with position-dependent sequences and matrix %s, plus the pairs (0|1|2, L) and (L, 0|1|2) for L in 4090..4100 and 65530..65540: judged like every other call; non-trivial = both lengths >= 1", maxLen, matrix),
+		Bounds: fmt.Sprintf("all %d length pairs; unbalanced pairs around 4096 and 65536", (maxLen+1)*(maxLen+1))},
+		func(emit func(alnLenCase) bool) {
+			for _, fn := range bothFns {
+				for la := 0; la <= maxLen; la++ {
+					for lb := 0; lb <= maxLen; lb++ {
+						if !emit(alnLenCase{fn, la, lb, matrix}) {
+							return
+						}
+					}
+				}
+				for _, c := range []int{4095, 65535} {
+					for l := c - 5; l <= c+5; l++ {
+						for s := 0; s <= 2; s++ {
+							if !emit(alnLenCase{fn, s, l, matrix}) || !emit(alnLenCase{fn, l, s, matrix}) {
+								return
+							}
+						}
+					}
+				}
+			}
+		},
+		func(c alnLenCase) core.Outcome {
+			ac := alnCase{c.Fn, core.S(lenSeq(c.LenA, 0)), core.S(lenSeq(c.LenB, 4)), c.Matrix}
+			res, changed := runAlign(ac, matrixByName(c.Matrix))
+			out := judge(ac, res, changed)
+			if out.Fail != "" {
+				out.Fail = fmt.Sprintf("lengths %d x %d: %s", c.LenA, c.LenB, trunc(out.Fail, 400))
+			}
+			if out.Fail == "" && out.Known == "" {
+				out.Class = c.Fn
+				out.Nontrivial = c.LenA >= 1 && c.LenB >= 1
+			}
+			return out
+		})
+}
